@@ -167,7 +167,10 @@ class Lang:
             if self.is_sub(T, left): out[rf] = right
         return out
 
-    def type_of(self, e, T):
+    def type_of(self, e, T, lhs_ops=""):
+        """static type of e from T; set operators are typed by the least common ancestor of their operands (malc),
+        except those listed in lhs_ops, which take the type of the left operand (only used to classify a rejection
+        of a language by the library)"""
         if T is None: return None
         op = e[0]
         if op == "a": return T
@@ -177,15 +180,28 @@ class Lang:
             return S if S is not None and self.is_sub(T, S) else None
         if op == "v":
             body, U = self.var(T, e[1])
-            return None if body is None else self.type_of(body, U)
+            return None if body is None else self.type_of(body, U, lhs_ops)
         if op == "s":
-            S = self.type_of(e[2], T)
+            S = self.type_of(e[2], T, lhs_ops)
             return e[1] if S is not None and self.is_sub(e[1], S) else None
         if op == "c":
-            return self.type_of(e[2], self.type_of(e[1], T))
-        a, b = self.type_of(e[1], T), self.type_of(e[2], T)
+            return self.type_of(e[2], self.type_of(e[1], T, lhs_ops), lhs_ops)
+        a, b = self.type_of(e[1], T, lhs_ops), self.type_of(e[2], T, lhs_ops)
         if a is None or b is None: return None
-        return self.lca(a, b)
+        c = self.lca(a, b)
+        return a if (c is not None and op in lhs_ops) else c
+
+    def lhs_typing_sensitive(self):
+        """names of the set operators for which some reaches expression of the language is well-typed with
+        least-common-ancestor typing but not when that operator takes the type of its left operand"""
+        out = []
+        for op in "uid":
+            for T in self.order:
+                for s, d in self.steps(T).items():
+                    for e in d["exprs"] or []:
+                        if self.type_of(e, T) is not None and self.type_of(e, T, op) is None and OPNAME[op] not in out:
+                            out.append(OPNAME[op])
+        return out
 
     # ---- langspec dict
     def spec(self):
